@@ -6,7 +6,8 @@
    server) is written down in the model (hr_std_pre, hr_remove_hop, hr_wire_hdrs) only to predict
    what the harness observes; the theorems below that mention it are statements about that
    description, tied to the library by observation, not by proof. *)
-From FRP Require Import Model.HttpRewrite Proofs.HttpRewriteProofs.
+From FRP Require Import Model.HttpRewrite Proofs.HttpRewriteProofs Model.HttpAdmit Proofs.HttpAdmitProofs
+  gen.GenVhostTransport.
 From Coq Require Import Permutation.
 Open Scope Z_scope.
 
@@ -185,6 +186,28 @@ Theorem C02_plugin_http2http_keeps_forwarded_for : forall p o reenc inr,
   hr_get hr_XFF (hq_hdrs (hr_plugin_backend_view p o reenc inr)) = hr_get hr_XFF (hq_hdrs inr).
 Proof. exact hr_plugin_h2h_keeps_forwarded. Qed.
 Print Assumptions C02_plugin_http2http_keeps_forwarded_for.
+
+(* "other requests are unaffected": a request is never queued behind other exchanges of its route.
+   Reflective over the http.Transport literal of NewHTTPReverseProxy as regenerated from
+   pkg/util/vhost/http.go on this run: exactly one literal, only reviewed fields, no later assignment, hence
+   MaxConnsPerHost = 0 (no cap per pool key) and, for every history of requests and finished exchanges over
+   any number of routes, no request waits inside the transport.  A per-host cap field in the literal makes
+   [eq_refl] fail to type-check. *)
+Theorem C02_request_never_queued_behind_its_route :
+  ht_max_conns gen_vhost_transport_fields = Some 0 /\
+  forall ops st, ~ In HtQueued (ht_run 0 st ops).
+Proof.
+  exact (ht_literal_ok_sound gen_vhost_transport_literals gen_vhost_transport_fields gen_vhost_transport_assigned
+           (eq_refl true)).
+Qed.
+Print Assumptions C02_request_never_queued_behind_its_route.
+
+(* the hypothesis is not vacuous: with a cap of 5 connections per key the sixth concurrent exchange of a
+   route waits (while another route is still served) *)
+Theorem C02_cap_per_route_would_queue : forall k k', k <> k' ->
+  ht_run 5 [] (ht_six k ++ [HtRequest k']) = [HtDial; HtDial; HtDial; HtDial; HtDial; HtQueued; HtDial].
+Proof. exact ht_cap5_queues. Qed.
+Print Assumptions C02_cap_per_route_would_queue.
 
 (* hypotheses are satisfiable / the functions compute *)
 Example C02_ex_route : hr_route :=
